@@ -18,6 +18,7 @@ func init() {
 			// the decompressors gxz relies on: a failing read is never turned into a clean end
 			ruleIO(c, r, readerCone(c), "lib:", true)
 			ruleDecoderReadErr(c, r, "")
+			ruleDeferResult(c, r, "")
 		},
 	})
 	register(&propCheck{
@@ -31,6 +32,8 @@ func init() {
 			"boolean value after a flag is swallowed by the parser - not visible to these rules), .txz/.tlz naming beyond target != input.",
 		run: func(c *Ctx, r *Report) {
 			ruleGxzFlags(c, r, "")
+			ruleDashDash(c, r, "")
+			ruleDeferResult(c, r, "")
 			ruleReaderWindow(c, r, "")
 			ruleGxzDataSafety(c, r, "")
 			ruleIO(c, r, gxzCone(c), "", true)
